@@ -7,6 +7,7 @@ CONSTANTS
   MaxClients0 = 2
   ServerAddrs = 1
   TokenSingleUse = TRUE
+  TokenTable = 2048
   MaxSteps = 6
   Addrs = {1, 2, 3}
   Dts = {250}
